@@ -94,7 +94,7 @@ impl Plugin for ServerEventPlugin {
                 PreUpdate,
                 (
                     receive.run_if(server_running),
-                    trigger.run_if(server_or_singleplayer),
+                    trigger,
                 )
                     .chain()
                     .in_set(ServerSet::Receive),
